@@ -31,6 +31,11 @@ package state
 //@ ghost $forkRound (Str) Int
 //@ ghost $blockRound Int
 
+//   $cfgValid[o]   (governance, C48) the settings object o has passed its own validate() since it
+//                  was last changed by an update; set only by the validate contracts, cleared by the
+//                  update/set contracts of the smart-contract packages
+//@ ghost $cfgValid (Int) Bool
+
 // ---------------------------------------------------------------- hard-fork activation (C43)
 
 // The activation round of a fork is the recorded one; a fork that cannot be read (never recorded,
